@@ -144,8 +144,10 @@ def is_nan_expr(e):
     v_ = getattr(e, '_xrsa_const', None)          # a module-level constant bound to NaN (normal form N2)
     if isinstance(v_, float) and v_ != v_:
         return True
+    if isinstance(e, ast.IfExp):
+        return is_nan_expr(e.body) and is_nan_expr(e.orelse)        # NaN whichever library is asked for it
     t = norm(e)
-    return t in ('np.nan', 'numpy.nan', 'np.NaN', 'math.nan', "float('nan')", 'nan', 'np.NAN')
+    return t in ('np.nan', 'numpy.nan', 'np.NaN', 'math.nan', "float('nan')", 'nan', 'np.NAN', 'cupy.nan', 'cp.nan')
 
 
 def terminates(stmts):
